@@ -253,6 +253,136 @@ pub fn gen_macros<R: Src>(r: &mut R, cfg: &GenCfg) -> Program {
          prog.rules.push(Rule { heads: vec![HeadItem::Clause { rel: h, args: hargs }], body });
       }
    }
+   // ---- hygiene stress: a two-hop macro with a macro-local join variable, invoked (a) twice in one conjunction, (b) inside a
+   // disjunction and again after it, (c) after a disjunction that holds the first call, (d) beside a call-site variable
+   // spelled like the local, (e) from a wrapper macro that has a local of the same spelling
+   if !heads.is_empty() && r.chance(75) {
+      let mut shapes: Vec<(String, usize, usize, String, usize, usize)> = vec![];
+      for a in &prog.rels {
+         for b in &prog.rels {
+            for ir in 0..a.cols.len() {
+               for jr in 0..a.cols.len() {
+                  for ks in 0..b.cols.len() {
+                     for ls in 0..b.cols.len() {
+                        if ir != jr && ks != ls && a.cols[jr] == b.cols[ks] {
+                           shapes.push((a.name.clone(), ir, jr, b.name.clone(), ks, ls));
+                        }
+                     }
+                  }
+               }
+            }
+         }
+      }
+      if !shapes.is_empty() {
+         let (ra, ir, jr, rb, ks, ls) = r.pick(&shapes).clone();
+         let (da, db) = (prog.rel(&ra).clone(), prog.rel(&rb).clone());
+         let (ta, tb) = (da.cols[ir], db.cols[ls]);
+         let local = r.pick(&["x", "y", "z", "w", "v"]).to_string();
+         let mk = |d: &RelDecl, pos_param: usize, pname: &str, pos_local: usize| -> BodyItem {
+            BodyItem::Clause {
+               rel: d.name.clone(),
+               args: (0..d.cols.len())
+                  .map(|i| if i == pos_param { Arg::Var(format!("${pname}")) } else if i == pos_local { Arg::Var(local.clone()) } else { Arg::Wild })
+                  .collect(),
+               conds: vec![],
+            }
+         };
+         let hop = MacroDef {
+            name: "hopm".into(),
+            params: vec![
+               MacroParam { name: "p0".into(), is_ident: true, ty: ta, role: "soft".into() },
+               MacroParam { name: "p1".into(), is_ident: true, ty: tb, role: "soft".into() },
+            ],
+            body: vec![mk(&da, ir, "p0", jr), mk(&db, ls, "p1", ks)],
+            head: vec![],
+            is_head: false,
+         };
+         prog.macros.push(hop.clone());
+         let call = |a: &str, b: &str| BodyItem::MacroCall {
+            name: "hopm".into(),
+            args: vec![MacroArg { is_ident: true, ident: a.into(), expr: None }, MacroArg { is_ident: true, ident: b.into(), expr: None }],
+         };
+         // the alternative of a disjunction binds the same two variables without the join
+         let alt = |a: &str, b: &str| -> Vec<BodyItem> {
+            let one = |d: &RelDecl, pos: usize, v: &str| BodyItem::Clause {
+               rel: d.name.clone(),
+               args: (0..d.cols.len()).map(|i| if i == pos { Arg::Var(v.into()) } else { Arg::Wild }).collect(),
+               conds: vec![],
+            };
+            vec![one(&da, ir, a), one(&db, ls, b)]
+         };
+         // wrapper macro with its own local of the same spelling, calling hopm inside a disjunction and again after it
+         let wrap_ok = ta == tb;
+         if wrap_ok && r.chance(60) {
+            prog.macros.push(MacroDef {
+               name: "hopw".into(),
+               params: hop.params.clone(),
+               body: vec![BodyItem::Disj(vec![vec![call("$p0", &local)], alt("$p0", &local)]), call(&local, "$p1")],
+               head: vec![],
+               is_head: false,
+            });
+         }
+         let has_wrap = prog.macros.iter().any(|m| m.name == "hopw");
+         for _ in 0..r.range(2, 4) {
+            let snapshot = prog.clone();
+            let mut ctx = RuleCtx::new(r, &snapshot, &cfg);
+            let mut body = vec![];
+            let (a, b, c, d) = (ctx.names.fresh(), ctx.names.fresh(), ctx.names.fresh(), ctx.names.fresh());
+            let chain = ta == tb;
+            // second call continues from b when the types allow it, else it is independent
+            let (c2a, c2b) = if chain { (b.clone(), c.clone()) } else { (c.clone(), d.clone()) };
+            let shape = r.below(if has_wrap { 6 } else { 5 });
+            match shape {
+               0 => {
+                  body.push(call(&a, &b));
+                  body.push(call(&c2a, &c2b));
+               },
+               1 => {
+                  body.push(BodyItem::Disj(vec![vec![call(&a, &b)], alt(&a, &b)]));
+                  body.push(call(&c2a, &c2b));
+               },
+               2 => {
+                  body.push(call(&a, &b));
+                  body.push(BodyItem::Disj(vec![alt(&c2a, &c2b), vec![call(&c2a, &c2b)]]));
+               },
+               3 => {
+                  // a call-site variable spelled like the macro-local one, bound before the call
+                  let pre = BodyItem::Clause {
+                     rel: db.name.clone(),
+                     args: (0..db.cols.len()).map(|i| if i == ks { Arg::Var(local.clone()) } else if i == ls { Arg::Var(a.clone()) } else { Arg::Wild }).collect(),
+                     conds: vec![],
+                  };
+                  if a != local && b != local && db.cols[ls] == ta {
+                     body.push(pre);
+                     ctx.bind(&local, db.cols[ks]);
+                  }
+                  body.push(call(&a, &b));
+               },
+               4 => {
+                  body.push(BodyItem::Disj(vec![vec![call(&a, &b)], vec![call(&a, &b), call(&c2a, &c2b)].into_iter().take(1).chain(alt(&c2a, &c2b)).collect()]));
+                  body.push(call(&c2a, &c2b));
+               },
+               _ => {
+                  body.push(BodyItem::MacroCall {
+                     name: "hopw".into(),
+                     args: vec![MacroArg { is_ident: true, ident: a.clone(), expr: None }, MacroArg { is_ident: true, ident: b.clone(), expr: None }],
+                  });
+                  body.push(call(&c2a, &c2b));
+               },
+            }
+            ctx.bind(&a, ta);
+            ctx.bind(&b, tb);
+            if shape != 3 {
+               ctx.bind(&c2a, ta);
+               ctx.bind(&c2b, tb);
+            }
+            let h = r.pick(&heads).clone();
+            let hargs = ctx.head_args(r, &h);
+            drop(ctx);
+            prog.rules.push(Rule { heads: vec![HeadItem::Clause { rel: h, args: hargs }], body });
+         }
+      }
+   }
    // ---- a head macro
    if r.chance(50) && !heads.is_empty() {
       let h1 = r.pick(&heads).clone();
